@@ -566,11 +566,23 @@ func (e *Env) call(x *ECall) SVal {
 	case "istr":
 		// istr(x): the string held by the interface value x (known where the code wrapped a string in it)
 		need(1)
-		if !e.g.declared["uf_ifstr"] {
-			e.g.declared["uf_ifstr"] = true
-			e.g.decls = append(e.g.decls, "(declare-fun uf_ifstr (Int) Int)")
-		}
+		e.g.ifaceDecls()
 		return iv(app(SInt, "uf_ifstr", e.eval(args[0]).T))
+	case "isstr", "isbytes":
+		// the dynamic type of the interface value x is string / []byte
+		need(1)
+		e.g.ifaceDecls()
+		tag := int64(1)
+		if x.Fn == "isbytes" {
+			tag = 2
+		}
+		return bv(Eq(app(SInt, "uf_iftype", e.eval(args[0]).T), IntLit(tag)))
+	case "ibytes":
+		// ibytes(x): the byte slice held by the interface value x
+		need(1)
+		e.g.ifaceDecls()
+		v := e.eval(args[0]).T
+		return SVal{T: app(SInt, "uf_ifbp", v), Ty: SType{K: KSlice, Elem: types.Universe.Lookup("byte").Type()}, Len: app(SInt, "uf_ifbn", v)}
 	case "now":
 		// now(p): the current value of a parameter that the code reassigns (in ghost assertions at call sites and in loop
 		// clauses; the plain name is the value at entry)
